@@ -603,7 +603,7 @@ func run(checkPath, tier, only string, verbose, novalidate bool) int {
 			if !confirmed {
 				if !seen[key+"|unconfirmed"] {
 					seen[key+"|unconfirmed"] = true
-					inconclusive = append(inconclusive, fmt.Sprintf("%s: model for %q did not reproduce natively (native %+v, vector %v)", v.Harness, v.Label, nr, v.Vector))
+					inconclusive = append(inconclusive, fmt.Sprintf("%s: model for %q did not reproduce natively (engine: %s at %s; native %+v, vector %v)", v.Harness, v.Label, v.Panic, v.Where, nr, clip(fmt.Sprint(v.Vector), 400)))
 				}
 				continue
 			}
@@ -771,6 +771,13 @@ func writeEvidence(path string, c *Check, tier string, seed int, results []*sx.H
 	}
 	data, _ := json.MarshalIndent(ev, "", " ")
 	os.WriteFile(path, data, 0o644)
+}
+
+func clip(s string, n int) string {
+	if len(s) > n {
+		return s[:n] + "..."
+	}
+	return s
 }
 
 func round2(f float64) float64 { return float64(int64(f*100+0.5)) / 100 }
